@@ -5,6 +5,9 @@ NxG out    : `<n> <G.edges()> A <adj row 0> ; <adj row 1> ; …`   (rows length-
 cnfgen out : `C <add_edge calls made> <S n m edges sorted-edgeset | ERR ValueError>`
              (calls made = all of them, or up to and including the first refused one)
 Draw list  : `<#draws>` then per draw `0 num` (random() = num/2^53) | `1 i` (choice → i)
+             | `2 <before list> <after list>` (shuffle)
+`nx_gnd`   : `OK <S …> R <#unused>` | `ERR NetworkXError` | `ERR ValueError` | `STUCK` (order-free parts only:
+             the iteration order of the Python set of edges is not modelled)
 Random out : `… R <#unused draws>` | `STUCK`
 `nx_cli`   : the request `gb_cli` of Driver/GraphBuild.lean with the list of networkx draws in front of the
              optional external graph (which is used for `gnd` only); same answer format as `gb_cli`
@@ -46,6 +49,7 @@ def draw : P NxDraw := do
   match tag with
   | 0 => do let v ← nat; pure (.unit v)
   | 1 => do let v ← nat; pure (.choice v)
+  | 2 => do let b ← nats; let a ← nats; pure (.shuffle b a)
   | _ => failure
 
 def fmtOut (o : NxOut NxG) : String :=
@@ -78,6 +82,13 @@ def handle (opname : String) (a : Args) : Option String :=
   | "nx_gnm" => run (do
       let n ← nat; let m ← nat; let ds ← listOf draw
       pure (fmtOut (gnmGraph n m ds))) a
+  | "nx_gnd" => run (do
+      let n ← nat; let d ← nat; let ds ← listOf draw
+      pure (match gndSimple n d ds with
+        | .ok (some (.ok S)) rest => s!"OK {fmtSimple S} R {rest.length}"
+        | .ok (some (.error e)) _ => err e
+        | .ok none _ => "ERR NetworkXError"
+        | .stuck => "STUCK")) a
   | "nx_cli" => run (do
       let gt ← int; let c ← int; let args ← listOf GraphBuild.arg
       let pc ← GraphBuild.optArgs; let pb ← GraphBuild.optArgs; let ae ← GraphBuild.optArgs; let se ← GraphBuild.optArgs
